@@ -129,6 +129,24 @@ func c16Bijection(rp *runner.Report) int {
 				c16Violation(rp, "registry:lookup-registers:"+kind, "a re-lookup registered a new ID", hist)
 				return evals
 			}
+			// IDs that are not assigned yet are reported as such
+			for _, k := range []int{n + 1, n + 2, limit - 1} {
+				if k <= n || k >= limit {
+					continue
+				}
+				evals++
+				if resources {
+					var rid ecs.ResID
+					*(*uint8)(unsafe.Pointer(&rid)) = uint8(k)
+					if rt, ok := ecs.ResourceType(&w, rid); ok {
+						c16Violation(rp, "registry:unassigned:"+kind, fmt.Sprintf("ResourceType(%d) reports %v although only %d types are registered", k, rt, n+1), hist)
+						return evals
+					}
+				} else if info, ok := ecs.ComponentInfo(&w, sim.IDOf(uint8(k))); ok {
+					c16Violation(rp, "registry:unassigned:"+kind, fmt.Sprintf("ComponentInfo(%d) reports %v although only %d types are registered", k, info.Type, n+1), hist)
+					return evals
+				}
+			}
 		}
 		// unassigned IDs are reported as such (none left here); one more registration must panic and change nothing
 		hist := []string{fmt.Sprintf("register %d %s types, then one more", limit, kind)}
